@@ -129,6 +129,14 @@ func hostileMsg(r *Rand, msize uint32) *Msg {
 	if r.Pct(50) {
 		m.Stat = nullStat(func(s *Stat) { s.Name = name(); s.Length = hostileU64[r.Intn(len(hostileU64))] })
 	}
+	if r.Pct(30) {
+		// owners by name, as a plain 9P2000 client sends them: names the host knows and names it does not
+		m.Stat.Uid = []string{"root", "daemon", "nobody", "no-such-user", ""}[r.Intn(5)]
+		m.Stat.Gid = []string{"root", "daemon", "", "no-such-group"}[r.Intn(4)]
+	}
+	if r.Pct(10) {
+		m.StatSize = 1 + r.Pick(0, 1, 2, 38, 39, 40, 41, 60, 0xFFFF) // the stat's own size[2] disagrees with what follows
+	}
 	return m
 }
 
